@@ -216,19 +216,29 @@ def applyField (f : Field) (v : Tree) : Except Err Tree :=
       | none => .ok v
     | _ => if accepts f.kind v then .ok v else .error .type        -- "Expect <class …> but encountered …"
 
+/-- The value bound to one field: the supplied one after `apply`, else the default, else MISSING. -/
+def fieldValue (kwargs : List (Key × Tree)) (f : Field) : Except Err Tree :=
+  match tlookup f.name kwargs with
+  | some v => applyField f v
+  | none => match f.default with
+    | some d => .ok d
+    | none => .ok (.leaf .missing)
+
 def bindFields (kwargs : List (Key × Tree)) : List Field → Except Err (List (Str × Tree))
   | [] => .ok []
   | f :: fs =>
-    match (match tlookup f.name kwargs with
-           | some v => applyField f v
-           | none => match f.default with
-             | some d => Except.ok d
-             | none => Except.ok (.leaf .missing)) with
+    match fieldValue kwargs f with
     | .error e => .error e
     | .ok v =>
       match bindFields kwargs fs with
       | .error e => .error e
       | .ok r => .ok ((f.name, v) :: r)
+
+/-- A keyword the class schema does not know (object.py:649). -/
+def unknownKey (fs : List Field) (p : Key × Tree) : Bool :=
+  match p.1 with
+  | .s k => !(fieldNames fs).contains k
+  | .i _ => true
 
 /-- `cls(allow_partial=…, **kwargs)`: object.py:600-703. -/
 def construct (env : ClassEnv) (allowPartial : Bool) (c : Str) (kwargs : List (Key × Tree)) :
@@ -237,9 +247,7 @@ def construct (env : ClassEnv) (allowPartial : Bool) (c : Str) (kwargs : List (K
   | none => .error .type                                            -- json_conversion.py:529 "Cannot load class"
   | some fs =>
     if hasIntKey kwargs then .error .type                           -- "keywords must be strings"
-    else if kwargs.any (fun p => match p.1 with
-                                 | .s k => !(fieldNames fs).contains k
-                                 | .i _ => true) then .error .type  -- object.py:649 unexpected keyword
+    else if kwargs.any (unknownKey fs) then .error .type           -- object.py:649 unexpected keyword
     else if !allowPartial && fs.any (fun f => f.default.isNone && (tlookup f.name kwargs).isNone)
       then .error .type                                             -- object.py:687 missing required
     else
